@@ -56,9 +56,9 @@ def gen_font(rng, n):
         if k == "comp" or (i > 6 and rng.random() < 0.25):
             a, b = (rng.sample(range(2, i), 2) if rng.random() < 0.8 else [rng.randint(2, i - 1)] * 2)
             def leaves(j):
-                return [x for (c, _dx, _dy) in glyphs[j]["components"] for x in leaves(c)] if "components" in glyphs[j] else [j]
+                return [x for (c, *_r) in glyphs[j]["components"] for x in leaves(c)] if "components" in glyphs[j] else [j]
             nested_ok = (a != b and "components" in glyphs[a] and "components" not in glyphs[b] and glyphs[b].get("contours")
-                         and all("components" not in glyphs[c] for (c, _x, _y) in glyphs[a]["components"]) and b not in leaves(a)
+                         and all("components" not in glyphs[c] for (c, *_r) in glyphs[a]["components"]) and b not in leaves(a)
                          and len(set(leaves(a))) == len(leaves(a)))
             if nested_ok:
                 # a composite one of whose components is itself a composite (component depth 2)
@@ -66,7 +66,13 @@ def gen_font(rng, n):
             elif "components" in glyphs[a] or "components" in glyphs[b] or not glyphs[a].get("contours") or not glyphs[b].get("contours"):
                 g = {"name": "g%d" % i, "adv": 500, "contours": rand_outline(rng, "rect")}
             else:
-                g = {"name": "g%d" % i, "adv": 700, "components": [(a, 0, 0), (b, rng.randint(-100, 400), rng.randint(-100, 400))]}
+                second = (b, rng.randint(-100, 400), rng.randint(-100, 400))
+                if a != b and rng.random() < 0.5:
+                    # scaled component (WE_HAVE_A_SCALE / WE_HAVE_AN_X_AND_Y_SCALE); eighths are exact in float arithmetic
+                    sx = rng.choice([4, 6, 8, 10, 12, 14, -8, -6]) * 2048
+                    sy = sx if rng.random() < 0.4 else rng.choice([4, 5, 6, 8, 10, 12, 14, -8]) * 2048
+                    second = second + (sx, sy)
+                g = {"name": "g%d" % i, "adv": 700, "components": [(a, 0, 0), second]}
         else:
             g = {"name": "g%d" % i, "adv": 600, "contours": rand_outline(rng, k)}
         glyphs.append(g)
